@@ -151,7 +151,16 @@ def conclude(chk, proof, info, disagree, oracle_fail, n_cases, stage="compile"):
                            broken="correspondence compile", theorems=[t["name"] for t in proof["theorems"]]), failing_input_found=False)
     if not proof["ok"] and not chk.violations:
         chk.violation(proof_violation(chk, proof), dict(stage="proof", broken=proof.get("broken_at"), problems=proof["problems"], log=proof["log"][-1500:]), failing_input_found=False)
+    skeleton_violation(chk, info, n_cases, proof)
     return chk.finish(proof, info)
+
+def skeleton_violation(chk, info, n_cases, proof):
+    """the parsers' literals no longer match the model's and no case showed a failure: the theorems are about another grammar"""
+    sk = (info or {}).get("skeleton") or {}
+    if sk.get("diffs") and not chk.violations:
+        chk.violation("the parser source no longer matches the model it was transcribed into (%s); no input violating the property found among %d cases" % (sk["diffs"][0], n_cases),
+                      dict(stage="skeleton", broken="translator/skeleton.py: source literals vs Model/*.v", differences=sk["diffs"], theorems=[t["name"] for t in proof["theorems"]]),
+                      failing_input_found=False)
 
 # ---------------------------------------------------------------------------------------- C01
 C01_ALPHA = [chr(c) for c in range(0, 128) if chr(c) not in "@{}"] + ["é", "€", "𝄞", "\u0080", "߿", "ࠀ", "￿", "\U00010000", "\U0010ffff", "̀", "​", "﻿", "", "ß", "日本"]
